@@ -8,6 +8,11 @@
     (4 vals sched)   mid-notification read  (((a b) ...) final_s (status status) hang)
     (5 0 sched)      lock order, HEAD traces of scenario 5      (hang)
     (6 0 sched)      lock order, traces before the notify_subs commit   (hang)
+    (10 kinds sched) await with the waker callbacks as yield points      as (1 ..), hang = a thread blocked on the wakers lock
+    (11 0 sched)     lock order signal -> memo -> effect, HEAD traces   (hang)
+    (12 0 sched)     the same with mark_subscribers_check under the read lock   (hang)
+    (13 sched)       signal -> memo -> ImmediateEffect on one thread, HEAD   (hang)
+    (14 sched)       the same before the memo fix   (hang)
     (7 sched)        signal read vs write holding the lock      ((reader_status value) writer_status final_s)
     status: 0 = waiting at a yield point / parked, 1 = finished, 2 = blocked on a lock, 3 = panicked *)
 From Coq Require Import List ZArith NArith Bool Arith.
@@ -60,6 +65,12 @@ Definition obs_glitch (s : gst) : sexp :=
 Definition obs_lock (st : list lthr * list nat) : sexp :=
   Lst [sbool (deadlocked (fst st))].
 
+Definition obs_await_u (u : ust) : sexp :=
+  match obs_await (u_s u) with
+  | Lst [a; c; _] => Lst [a; c; sbool (negb (match u_wq u with [] => true | _ => false end))]
+  | x => x
+  end.
+
 Definition obs_read (s : rst) : sexp :=
   Lst [match r_r s with
        | R0 => Lst [Num 0; Num 0]
@@ -81,5 +92,10 @@ Definition run_C19 (c : sexp) : sexp :=
   | 5%Z => obs_lock (lrun_coarse (linit [e_rerun_sd; d_complete]) (as_nats (nth_s 2 c)))
   | 6%Z => obs_lock (lrun_coarse (linit [e_rerun_sd; d_complete_prefix]) (as_nats (nth_s 2 c)))
   | 7%Z => obs_read (rrun rinit (as_nats (nth_s 1 c)))
+  | 10%Z => obs_await_u (urun (uinit (as_bools (nth_s 1 c))) (as_nats (nth_s 2 c)))
+  | 11%Z => obs_lock (lrun_coarse (linit [e_rerun_mt; s_set_me]) (as_nats (nth_s 2 c)))
+  | 12%Z => obs_lock (lrun_coarse (linit [e_rerun_mt; s_set_me_prefix]) (as_nats (nth_s 2 c)))
+  | 13%Z => obs_lock (lrun_coarse (linit [s_set_immediate_head]) (as_nats (nth_s 1 c)))
+  | 14%Z => obs_lock (lrun_coarse (linit [s_set_immediate_prefix]) (as_nats (nth_s 1 c)))
   | _ => Lst []
   end.
